@@ -1,16 +1,28 @@
 /-
-  Props/C12.lean — C12: structure edits keep content intact.
-  Split, join, lift and wrap emit structure-flagged steps whose slices carry no content; the Lean
-  monitor `isStructuralAt` is evaluated on every step the real operations emit, and these theorems say
-  that such a step, when it applies, preserves the sequence of text and leaf nodes exactly and yields
-  a valid document.  That an *approved* edit then succeeds is decided by correspondence and search
-  (with the open finding for lifting out of nested lists, DESIGN.md).  Helpers: Proofs/Respects.lean.
+  Props/C12.lean — C12: structure helpers approve only edits that keep content intact; they return
+  in-range results and never raise on in-range input.
+
+  * `structural_keeps_content`: a step that satisfies the monitor `isStructuralAt` and applies preserves
+    the sequence of text and leaf nodes exactly (and is valid whenever its payload is, C01).
+  * builders (PM/StructEdit.lean, tied exactly to the steps the real `Transform` records):
+    `join/split/lift/wrap_structural` — the built step meets the static requirements (`StructuralStep`);
+    `join/split/lift/wrap_keeps_content` — so if it applies, text and leaf nodes are exactly preserved.
+  * helpers (PM/Structure.lean, PM/Structure2.lean, tied exactly at every probed position):
+    `joinPoint/insertPoint/dropPoint/liftTarget_in_range`, and `…_never_raises` for `can_join`,
+    `join_point`, `insert_point`, `drop_point`, `lift_target`, `can_split`, `can_change_type`,
+    `find_wrapping` on valid documents, each with its exact guard.
+  That an *approved* edit then succeeds is decided by correspondence and search (open findings: lifting
+  out of nested lists; marks the wrapper disallows; and `can_join` does not look at `check_join`'s
+  `compatible_content`, see the report of this work package).
+  Helpers: Proofs/Respects.lean, Proofs/StructEdit.lean, Proofs/Structure2.lean.
 -/
 import PM.Monitor
 import Proofs.StepToks
 import Proofs.Respects
 import Props.C01
 import Proofs.StructEdit
+import Proofs.Structure2
+import Props.C18
 namespace PM.C12
 open PM
 
@@ -313,27 +325,208 @@ theorem wrap_keeps_content (S : Schema) (doc doc' : Node) (a b depth : Nat) (ws 
     (ftoks doc'.kids).filter Tok.isContent = (ftoks doc.kids).filter Tok.isContent :=
   structuralStep_keeps_content S doc doc' st (wrap_structural S doc a b depth ws st hab hl hb) h
 
-/-! ### concrete instances of the hypotheses: `doc(blockquote(p("a"), p("b")))` -/
+/-! ### the helpers (PM/Structure.lean, PM/Structure2.lean) return in-range results -/
+
+/-- a join point lies in the document -/
+theorem joinPoint_in_range (S : Schema) (doc : Node) (pos : Nat) (dir : Int) (p : Nat)
+    (h : joinPoint S doc pos dir = some (some p)) : p ≤ fsize doc.kids := by
+  unfold joinPoint at h
+  cases hr : doc.resolve pos with
+  | none => simp [hr] at h
+  | some r =>
+    simp only [hr] at h
+    have R := resolve_resolved hr
+    exact joinPointLoop_le S R dir r.depth pos p R.le h
+
+/-- an insert point lies in the document -/
+theorem insertPoint_in_range (S : Schema) (doc : Node) (pos : Nat) (ty : TypeId) (p : Nat)
+    (h : insertPoint S doc pos ty = some (some p)) : p ≤ fsize doc.kids := by
+  unfold insertPoint at h
+  cases hr : doc.resolve pos with
+  | none => simp [hr] at h
+  | some r =>
+    simp only [hr] at h
+    have R := resolve_resolved hr
+    unfold insertPointR at h
+    split at h
+    · simp at h
+    · simp only [Option.some.injEq] at h
+      rw [← h, R.pos_eq]; exact R.le
+    · simp only at h
+      split at h
+      · simp at h
+      · rename_i res hfirst
+        simp only [Option.some.injEq] at h
+        subst h
+        split at hfirst
+        · exact insertLoopStart_le S R ty r.depth p hfirst
+        · simp at hfirst
+      · split at h
+        · split at h
+          · simp at h
+          · rename_i res hend
+            simp only [Option.some.injEq] at h
+            subst h
+            exact insertLoopEnd_le S R ty r.depth p hend
+          · simp at h
+        · simp at h
+
+/-- a drop point lies in the document -/
+theorem dropPoint_in_range (S : Schema) (doc : Node) (pos : Nat) (sl : Slice) (p : Nat)
+    (h : dropPoint S doc pos sl = some (some p)) : p ≤ fsize doc.kids := by
+  unfold dropPoint at h
+  cases hr : doc.resolve pos with
+  | none => simp [hr] at h
+  | some r =>
+    simp only [hr] at h
+    have R := resolve_resolved hr
+    unfold dropPointR at h
+    split at h
+    · simp only [Option.some.injEq] at h
+      rw [← h, R.pos_eq]; exact R.le
+    · split at h
+      · simp at h
+      · rename_i content _
+        split at h
+        · simp at h
+        · rename_i p' hp'
+          simp only [Option.some.injEq] at h
+          subst h
+          exact dropLoop_le S R content false _ _ hp'
+        · split at h
+          · exact dropLoop_le S R content true _ _ h
+          · simp at h
+
+/-- a lift target is a depth strictly above the range's depth, which is a depth of both ends -/
+theorem liftTarget_in_range (S : Schema) (doc : Node) (f t depth d : Nat) (rf rt : RPos)
+    (hf : doc.resolve f = some rf) (ht : doc.resolve t = some rt)
+    (h : liftTarget S doc f t depth = some (some d)) : d < depth ∧ depth ≤ rf.depth ∧ depth ≤ rt.depth := by
+  obtain ⟨h1, h2, h3, _⟩ := C18.liftTarget_not_across_isolating S doc f t depth d rf rt hf ht h
+  exact ⟨h1, h2, h3⟩
+
+/-! ### the helpers never raise on in-range input of a valid document -/
+
+/-- the position does not fall between the two halves of a surrogate pair (Python cannot cut a `str`
+    there: `node_before` / `node_after` raise `UnicodeDecodeError`) -/
+def pairAligned (doc : Node) (pos : Nat) : Bool :=
+  match doc.resolve pos with
+  | some r => r.pairOk
+  | none => true
+
+/-- `can_join` answers (`None`, `True` or `False`) at every pair-aligned position of a valid document -/
+theorem canJoin_never_raises (S : Schema) (doc : Node) (pos : Nat) (hv : C01.Valid S doc)
+    (hpos : pos ≤ fsize doc.kids) (hal : pairAligned doc pos = true) : canJoin S doc pos ≠ none := by
+  obtain ⟨r, hr⟩ := resolve_isSome doc pos hpos
+  obtain ⟨v, h⟩ := canJoinR_isSome S (resolve_resolved hr) hv (by simpa [pairAligned, hr] using hal)
+  simp [canJoin, hr, h]
+
+theorem joinPoint_never_raises (S : Schema) (doc : Node) (pos : Nat) (dir : Int) (hv : C01.Valid S doc)
+    (hpos : pos ≤ fsize doc.kids) (hal : pairAligned doc pos = true) : joinPoint S doc pos dir ≠ none := by
+  obtain ⟨r, hr⟩ := resolve_isSome doc pos hpos
+  obtain ⟨v, h⟩ := joinPointLoop_isSome S (resolve_resolved hr) hv (by simpa [pairAligned, hr] using hal)
+    dir r.depth pos (Nat.le_refl _)
+  simp [joinPoint, hr, h]
+
+theorem insertPoint_never_raises (S : Schema) (doc : Node) (pos : Nat) (ty : TypeId) (hv : C01.Valid S doc)
+    (hpos : pos ≤ fsize doc.kids) : insertPoint S doc pos ty ≠ none := by
+  obtain ⟨r, hr⟩ := resolve_isSome doc pos hpos
+  obtain ⟨v, h⟩ := insertPointR_isSome S (resolve_resolved hr) hv ty
+  simp [insertPoint, hr, h]
+
+/-- `drop_point` needs the slice's `open_start` to be backed by its content (the `assert` on `first_child`) -/
+theorem dropPoint_never_raises (S : Schema) (doc : Node) (pos : Nat) (sl : Slice) (hv : C01.Valid S doc)
+    (hpos : pos ≤ fsize doc.kids) (hopen : sl.openStart ≤ spineL sl.content) : dropPoint S doc pos sl ≠ none := by
+  obtain ⟨r, hr⟩ := resolve_isSome doc pos hpos
+  obtain ⟨v, h⟩ := dropPointR_isSome S (resolve_resolved hr) hv sl hopen
+  simp [dropPoint, hr, h]
+
+/-- `lift_target` on a range whose depth is a depth of both ends -/
+theorem liftTarget_never_raises (S : Schema) (doc : Node) (f t depth : Nat) (rf rt : RPos) (hv : C01.Valid S doc)
+    (hf : doc.resolve f = some rf) (ht : doc.resolve t = some rt) (hdf : depth ≤ rf.depth) (hdt : depth ≤ rt.depth) :
+    liftTarget S doc f t depth ≠ none := by
+  obtain ⟨v, h⟩ := liftLoop_isSome S (resolve_resolved hf) hv rt depth
+    (cutByIndex (rf.node depth).kids (rf.index depth) (rt.indexAfter depth)) depth hdf
+  simp only [liftTarget, hf, ht, liftTargetR]
+  rw [if_neg (by simp; omega)]
+  simp [h]
+
+/-- `can_split` with a depth of at least 1 (`depth = 0` reaches `pos_.node(pos_.depth + 1)`: IndexError) -/
+theorem canSplit_never_raises (S : Schema) (doc : Node) (pos depth : Nat) (hv : C01.Valid S doc)
+    (hpos : pos ≤ fsize doc.kids) (hd : 1 ≤ depth) : canSplit S doc pos depth ≠ none := by
+  obtain ⟨r, hr⟩ := resolve_isSome doc pos hpos
+  obtain ⟨v, h⟩ := canSplitR_isSome S (resolve_resolved hr) hv depth hd
+  simp [canSplit, hr, h]
+
+theorem canChangeType_never_raises (S : Schema) (doc : Node) (pos : Nat) (ty : TypeId) (hv : C01.Valid S doc)
+    (hpos : pos ≤ fsize doc.kids) : canChangeType S doc pos ty ≠ none := by
+  obtain ⟨r, hr⟩ := resolve_isSome doc pos hpos
+  have R := resolve_resolved hr
+  obtain ⟨v, h⟩ := nodeCanReplaceWith_isSome S r.parent (path_valid S R hv r.depth (Nat.le_refl _))
+    (r.index r.depth) (r.index r.depth + 1) ty (R.index_le r.depth (Nat.le_refl _))
+  simp [canChangeType, hr, h]
+
+/-- `find_wrapping` on a node range as `block_range` builds them: `from ≤ to`, `to` inside the node at the
+    range's depth (`to ≤ from.end(depth)`), and `from` in front of a child of that node -/
+theorem findWrapping_never_raises (S : Schema) (doc : Node) (a b depth : Nat) (ty : TypeId) (rf rt : RPos)
+    (hv : C01.Valid S doc) (hf : doc.resolve a = some rf) (ht : doc.resolve b = some rt)
+    (hab : a ≤ b) (hdf : depth ≤ rf.depth) (hdt : depth ≤ rt.depth) (hend : b ≤ rf.end_ depth)
+    (hchild : rf.index depth < (rf.node depth).kids.length) :
+    findWrappingRange S doc a b depth ty ≠ none := by
+  have Rf := resolve_resolved hf
+  have Rt := resolve_resolved ht
+  have pf := Rf.pos_in depth hdf
+  have pt := Rt.pos_in depth hdt
+  have same := (same_ancestors Rf Rt depth b hdf hdt (by omega) hend pt.1 pt.2 depth (Nat.le_refl _)).1
+  obtain ⟨v, h⟩ := findWrappingR_isSome S Rf hv depth ty hdf hdt hchild
+    (by rw [same]; exact Rt.indexAfter_le depth hdt)
+  simp [findWrappingRange, hf, ht, h]
+
+/-! ### concrete instances of the hypotheses: `doc(blockquote(p("a"), p("b")))` in a schema
+    `doc: block+`, `blockquote: block+`, `paragraph: text*` -/
 
 private def exDoc : Node :=
   .elem 0 [] [] [.elem 1 [] [] [.elem 2 [] [] [.text [97] []], .elem 2 [] [] [.text [98] []]]]
 
-private def exNT (name : String) (leaf : Bool) : NodeType :=
-  { name := name, isText := false, isInline := false, isLeaf := leaf, isAtom := leaf, inlineContent := false,
-    isolating := false, defining := false, code := false, dfa := #[⟨true, []⟩], markSet := none, attrs := [] }
+/-- `doc(blockquote(p("a")), blockquote(p("b")))` -/
+private def exDoc2 : Node :=
+  .elem 0 [] [] [.elem 1 [] [] [.elem 2 [] [] [.text [97] []]], .elem 1 [] [] [.elem 2 [] [] [.text [98] []]]]
+
+private def exNT (name : String) (text inlineContent : Bool) (dfa : Array DfaState) : NodeType :=
+  { name := name, isText := text, isInline := text, isLeaf := text, isAtom := text, inlineContent := inlineContent,
+    isolating := false, defining := false, code := false, dfa := dfa, markSet := none, attrs := [] }
+
+private def blocksDfa : Array DfaState := #[⟨false, [(1, 1), (2, 1)]⟩, ⟨true, [(1, 1), (2, 1)]⟩]
 
 private def exSchema : Schema :=
-  { nodes := #[exNT "doc" false, exNT "blockquote" false, exNT "paragraph" false, exNT "text" true],
+  { nodes := #[exNT "doc" false false blocksDfa, exNT "blockquote" false false blocksDfa,
+      exNT "paragraph" false true #[⟨true, [(3, 0)]⟩], exNT "text" true false #[⟨true, []⟩]],
     marks := #[], top := 0, textTy := 3 }
 
-/-- lifting the second paragraph out of the blockquote: the blockquote is split before it -/
+example : C01.Valid exSchema exDoc := by rfl
+example : C01.Valid exSchema exDoc2 := by rfl
+example : pairAligned exDoc 3 = true := by rfl
+
+/-- lifting the second paragraph out of the blockquote: approved (target depth 0), the blockquote is split
+    before it -/
+example : liftTarget exSchema exDoc 6 7 1 = some (some 0) := by rfl
 example : liftStep exDoc 6 7 1 0 = .ok (.replaceAround 4 8 4 7 ⟨[.elem 1 [] [] []], 1, 0⟩ 1 true) := by rfl
 /-- splitting inside the first paragraph, two levels deep -/
+example : canSplit exSchema exDoc 3 2 = some true := by rfl
 example : splitStep exDoc 3 2 = .ok (.replace 3 3
     ⟨[.elem 1 [] [] [.elem 2 [] [] []], .elem 1 [] [] [.elem 2 [] [] []]], 2, 2⟩ true) := by rfl
-example : joinStep 4 1 = .ok (.replace 3 5 Slice.empty true) := by rfl
+/-- joining the two blockquotes of `exDoc2` -/
+example : canJoin exSchema exDoc2 5 = some (some true) := by rfl
+example : joinPoint exSchema exDoc2 7 (-1) = some (some 5) := by rfl
+example : joinStep 5 1 = .ok (.replace 4 6 Slice.empty true) := by rfl
 /-- wrapping the second paragraph in a blockquote -/
+example : findWrappingRange exSchema exDoc 5 6 1 1 = some (some [1]) := by rfl
 example : wrapStep exSchema exDoc 5 6 1 [(1, [])] =
     .ok (.replaceAround 4 7 4 7 ⟨[.elem 1 [] [] []], 0, 0⟩ 1 true) := by rfl
+/-- a blockquote cannot go into the paragraph at its start, but it fits in front of it -/
+example : insertPoint exSchema exDoc 2 1 = some (some 1) := by rfl
+example : dropPoint exSchema exDoc 2 ⟨[.elem 1 [] [] [.elem 2 [] [] []]], 0, 0⟩ = some (some 1) := by rfl
+/-- the guards are needed: `can_split` with depth 0 raises, and so does `can_join` one past the end -/
+example : canSplit exSchema exDoc 3 0 = none := by rfl
+example : canJoin exSchema exDoc 9 = none := by rfl
 
 end PM.C12
